@@ -26,6 +26,10 @@ EXPLANATION = (
     "a value whose intra-procedural definition closure contains the required callee; totErrors is only assigned 0 (once) or "
     "increased; calls of exitSuccess/exit(0) occur only in the frozen set of functions. K4: main's returned value is clamped "
     "or normalised so that an error total that is a multiple of 256 cannot become status 0. "
+    "K5 (guard coverage over the IfState enumeration of include.c, by three-valued partial evaluation of the enclosing "
+    "conditions with ifState fixed): at end of file, for every state other than the initial one the call "
+    "inclError(ALDOR_E_InclIfEof) executes; with ifState at its initial value each of the #elseif/#else/#endif handlers "
+    "reaches its inclError(ALDOR_E_InclUnbal...) call and nothing before the guarding statement leaves the function. "
     "Not decided: termination, parser recovery, other memory faults.")
 
 FROZEN = os.path.join(os.path.dirname(__file__), "frozen")
@@ -338,6 +342,107 @@ def return_closure(fn):
     return res
 
 
+def k5(rep):
+    """Unbalanced conditional-inclusion directives are always diagnosed (guard coverage over the IfState enumeration)."""
+    from .peval import peval
+    from .c06_errors import msgname
+    f = common.extract("include.c", all_trees=True)
+    states = None
+    for e in f.raw["enums"]:
+        names = [n for n, _ in e["e"]]
+        if "NoIf" in names or any(n.endswith("If") for n in names) and len(names) >= 3:
+            if any(n == "ActiveIf" for n in names):
+                states = dict(e["e"])
+    if not states:
+        raise AnalysisBroken("include.c: enumeration of #if states (IfState) not found")
+    # initial state: the value ifState gets outside the directive handlers
+    inits = set()
+    for name, fn in f.funcs.items():
+        if "body" not in fn or not fn["file"].endswith("include.c") or name.startswith("inclHandle"):
+            continue
+        for x in walk(fn["body"]):
+            if x["k"] == "BinaryOperator" and x["op"] == "=" and strip(x["c"][0]) is not None and strip(x["c"][0]).get("n") == "ifState":
+                inits.add(const_value(x["c"][1]))
+    if len(inits) != 1 or None in inits:
+        raise AnalysisBroken("include.c: ifState is initialised to %s outside the directive handlers; expected one constant" % sorted(map(str, inits)))
+    init = inits.pop()
+    sname = {v: n for n, v in states.items()}
+
+    def guard_of(fn, call):
+        """conditions (with polarity) of the IfStmts enclosing the call inside fn"""
+        par = common.parents(fn["body"])
+        out = []
+        ch, p = call, par.get(call["id"])
+        while p is not None:
+            if p["k"] == "IfStmt":
+                if p["c"][1] is not None and p["c"][1]["id"] == ch["id"]:
+                    out.append((p, True))
+                elif p["c"][2] is not None and p["c"][2]["id"] == ch["id"]:
+                    out.append((p, False))
+            ch, p = p, par.get(p["id"])
+        return out
+
+    def fires(guards, st):
+        """three-valued: does the call execute when ifState == st (other conditions unknown -> None)"""
+        res = 1
+        for iff, pol in guards:
+            v = peval(iff["c"][0], {"ifState": st})
+            if v is None:
+                res = None if res != 0 else 0
+                continue
+            if bool(v) != pol:
+                return 0
+        return res
+
+    found = {}
+    for name, fn in f.funcs.items():
+        if "body" not in fn or not fn["file"].endswith("include.c"):
+            continue
+        for c in calls(fn["body"], "inclError"):
+            m = msgname(c["c"][1]) if len(c["c"]) > 1 else None
+            if m:
+                found.setdefault(m, []).append((name, fn, c))
+    # (a) end of file inside an open conditional
+    eof = found.get("ALDOR_E_InclIfEof", [])
+    if not eof:
+        raise AnalysisBroken("include.c: no inclError(ALDOR_E_InclIfEof) call (end of file inside #if)")
+    for name, fn, c in eof:
+        guards = guard_of(fn, c)
+        # the outermost guard is the end-of-file test itself (does not mention ifState): unknown is fine there
+        for st, sn in sorted(sname.items()):
+            if st == init:
+                continue
+            key = "if-eof-diagnosed:%s:%s" % (name, sn)
+            v = fires([g for g in guards if any(x["k"] == "DeclRefExpr" and x["n"] == "ifState" for x in walk(g[0]["c"][0]))], st)
+            if v == 1:
+                rep.ok("K5", key, sample={"site": "include.c:%d" % c["l"], "state": sn} if st == max(sname) else None)
+            else:
+                rep.violation("K5", key, "include.c:%d (%s)" % (c["l"], name),
+                              "at end of file with an open conditional in state %s the `#if without #endif' error is not raised: "
+                              "an unterminated #if compiles silently with exit 0" % sn)
+    # (b) #else / #elseif / #endif without #if
+    unbal = {m: v for m, v in found.items() if "Unbal" in m}
+    if len(unbal) < 3:
+        raise AnalysisBroken("include.c: expected inclError(ALDOR_E_InclUnbal{Elseif,Else,Endif}), found %s" % sorted(unbal))
+    for m, lst in sorted(unbal.items()):
+        for name, fn, c in lst:
+            key = "unbalanced-diagnosed:%s:%s" % (name, m)
+            guards = guard_of(fn, c)
+            top = guards[-1][0] if guards else None
+            # nothing before the guarding statement may leave the function
+            early = False
+            for st in fn["body"]["c"]:
+                if st is None or (top is not None and st["id"] == top["id"]):
+                    break
+                if any(x["k"] in ("ReturnStmt", "GotoStmt") for x in walk(st)):
+                    early = True
+            if fires(guards, init) == 1 and not early:
+                rep.ok("K5", key)
+            else:
+                rep.violation("K5", key, "include.c:%d (%s)" % (c["l"], name),
+                              "with no conditional open (state %s) the directive is not reported as unbalanced (%s)" % (sname[init], m))
+
+
 def run(tier, only=None):
     rep = common.Report("C07", tier, EXPLANATION)
     units = common.compiler_units()
@@ -360,6 +465,7 @@ def run(tier, only=None):
         else:
             rep.violation("K1", key, where, "%s: %s (%s)" % (s["expr"], s["why"], s["origin"]))
 
+    k5(rep)
     # ---- K2 ---------------------------------------------------------------
     f_comsg = common.extract("comsg.c", all_trees=True, all_cfg=True)
     allowed = {"comsgVError": {"post++", "++"}, "comsgVFatal": {"post++", "++"}, "comsgInit": {"="}}
